@@ -33,7 +33,44 @@ def comprehension(I, node, it, cenv, kind):
         r = SStr(parts)
         c = r.concrete()
         return c if c is not None else r
+    from .seq import SSeq
+    if isinstance(it, SSeq):
+        return seq_comprehension(I, node, it, cenv)
     raise Unsupported('comprehension over a symbolic sequence')
+
+
+def _pointwise(I, fn):
+    def run(v):
+        I.pointwise += 1
+        try:
+            return fn(v)
+        finally:
+            I.pointwise -= 1
+    return run
+
+
+def seq_comprehension(I, node, pipe, cenv):
+    """[elt for x in <pipe> if conds]  ->  the pipe with more filter / map stages (evaluated per canonical element)."""
+    from .interp import Env
+    g = node.generators[0]
+    if isinstance(node, ast.DictComp):
+        raise Unsupported('dict comprehension over a symbolic sequence')
+    snapshot = dict(cenv.vars)
+
+    def env_for(v):
+        e = Env(cenv.module, cenv.cls, cenv.func, cenv.parent)
+        e.vars.update(snapshot)
+        I.assign(g.target, v, e)
+        return e
+    out = pipe
+    for cond in g.ifs:
+        out = out.with_stage('filter', _pointwise(I, lambda v, cond=cond: I.truth(I.ev(cond, env_for(v)))))
+    identity = isinstance(node.elt, ast.Name) and isinstance(g.target, ast.Name) and node.elt.id == g.target.id
+    if not identity:
+        out = out.with_stage('map', _pointwise(I, lambda v: I.ev(node.elt, env_for(v))))
+    if out is pipe:
+        out = pipe.with_stage('filter', lambda v: True)
+    return out
 
 
 def _unsup(name):
@@ -42,10 +79,8 @@ def _unsup(name):
     return f
 
 
-for_over_seq = _unsup('for over symbolic sequence')
 while_symbolic = _unsup('while with symbolic condition (needs an invariant)')
 seq_concat = _unsup('sequence concatenation')
-seq_equals = _unsup('sequence equality')
 seq_contains = _unsup('sequence membership')
 seq_slice = _unsup('sequence slice')
 seq_index = _unsup('sequence index')
@@ -53,12 +88,10 @@ seq_sum = _unsup('sum over sequence')
 seq_enumerate = _unsup('enumerate over sequence')
 seq_reversed = _unsup('reversed sequence')
 seq_method = _unsup('sequence method')
-seq_join = _unsup('join over sequence')
 sym_range = _unsup('range with symbolic bound')
 rl_slice = _unsup('slice of run-length string')
 str_startswith = _unsup('startswith on symbolic string')
 str_endswith = _unsup('endswith on symbolic string')
-str_order = _unsup('ordering of symbolic strings')
 
 
 def sorted_(I, args, kwargs):
@@ -67,7 +100,11 @@ def sorted_(I, args, kwargs):
     reverse = kwargs.get('reverse', False)
     from .seq import SSeq
     if isinstance(xs, SSeq):
-        raise Unsupported('sorted over a symbolic sequence')
+        if reverse:
+            raise Unsupported('sorted(reverse=True) over a symbolic sequence')
+        if key is None:
+            return xs.with_stage('sort', lambda v: v)
+        return xs.with_stage('sort', _pointwise(I, lambda v: I.call(key, [v], {})))
     items = I.iterate(xs)
     keys = [I.call(key, [x], {}) if key is not None else x for x in items]
 
@@ -87,6 +124,9 @@ def sorted_(I, args, kwargs):
 
 def filter_(I, fn, xs):
     """filter(pred, <run-length string>): the predicate is decided by the (concrete) character of each run."""
+    from .seq import SSeq
+    if isinstance(xs, SSeq):
+        return xs.with_stage('filter', _pointwise(I, lambda v: I.truth(I.call(fn, [v], {}))))
     if isinstance(xs, SStr):
         parts = []
         for p in xs.parts:
@@ -119,6 +159,12 @@ def str_replace(I, S, old, new):
     may be empty)."""
     if not (isinstance(old, str) and isinstance(new, str) and len(old) >= 1):
         raise Unsupported('replace with symbolic pattern')
+    if any(p[0] == 'sym' for p in S.parts) and all(p[0] in ('sym', 'lit') for p in S.parts):
+        # opaque text: SMT-LIB str.replace_all (equalities between such terms are decided syntactically / by the seq solver)
+        from .values import to_z3_string
+        zs = to_z3_string(S)
+        a, b = z3.StringVal(old), z3.StringVal(new)
+        return SStr([('sym', z3.SeqRef(z3.Z3_mk_seq_replace_all(zs.ctx_ref(), zs.as_ast(), a.as_ast(), b.as_ast()), zs.ctx))])
     lits = []
     for p in S.parts:
         if p[0] == 'run':
@@ -145,3 +191,137 @@ def str_replace(I, S, old, new):
     r = SStr(parts)
     c = r.concrete()
     return c if c is not None else r
+
+
+def seq_join(I, sep, pipe):
+    if not isinstance(sep, str):
+        raise Unsupported('join with a symbolic separator')
+    return SStr([('sym', I.pipes.observable(pipe, 'join', sep))])
+
+
+def seq_equals(I, a, b):
+    """Two pipes are equal when they are unified (pointwise-equivalent stages, proved); otherwise the answer is an opaque
+    Bool (the proof obligation that needs it then fails and the witness search takes over)."""
+    from .seq import SSeq
+    if isinstance(a, SSeq) and isinstance(b, SSeq):
+        if a.src is b.src and I.pipes.canon_id(a) == I.pipes.canon_id(b):
+            return True
+        return z3.Bool(f'seq-eq({a.src.name}~{I.pipes.canon_id(a)},{b.src.name}~{I.pipes.canon_id(b)})')
+    if isinstance(a, SSeq) and isinstance(b, (list, tuple)) and len(b) == 0:
+        from .interp import _not
+        return _not(I.pipes.observable(a, 'ne'))
+    if isinstance(b, SSeq):
+        return seq_equals(I, b, a)
+    raise Unsupported('equality between a symbolic sequence and a concrete list')
+
+
+def str_order(I, op, a, b):
+    """code-point (lexicographic) order of strings: SMT-LIB str.< / str.<="""
+    from .values import to_z3_string
+    from .interp import simp
+    x, y = to_z3_string(a), to_z3_string(b)
+    if isinstance(op, ast.Lt):
+        return simp(x < y)
+    if isinstance(op, ast.LtE):
+        return simp(x <= y)
+    if isinstance(op, ast.Gt):
+        return simp(y < x)
+    return simp(y <= x)
+
+
+# ----------------------------------------------------------------------------------------------------- loops over pipes
+def _assigned_names(stmts):
+    out = set()
+    for st in stmts:
+        for n in ast.walk(st):
+            if isinstance(n, (ast.Assign, ast.AugAssign, ast.AnnAssign)):
+                targets = n.targets if isinstance(n, ast.Assign) else [n.target]
+                for t in targets:
+                    for m in ast.walk(t):
+                        if isinstance(m, ast.Name):
+                            out.add(m.id)
+            elif isinstance(n, (ast.For, ast.While, ast.Try, ast.With, ast.Return, ast.Break, ast.Continue, ast.Raise)):
+                raise Unsupported(f'{type(n).__name__} inside a loop over a symbolic sequence')
+    return out
+
+
+def _append_pattern(st):
+    """for x in S: [if c: ]* L.append(e)   ->  (list name, [conds], elt)   (the filter/map loop)"""
+    body = st.body
+    conds = []
+    while len(body) == 1 and isinstance(body[0], ast.If) and not body[0].orelse:
+        conds.append(body[0].test)
+        body = body[0].body
+    # comments / docstrings do not appear in ast bodies; allow a single append call
+    if len(body) == 1 and isinstance(body[0], ast.Expr) and isinstance(body[0].value, ast.Call):
+        c = body[0].value
+        if (isinstance(c.func, ast.Attribute) and c.func.attr == 'append' and isinstance(c.func.value, ast.Name)
+                and len(c.args) == 1 and not c.keywords):
+            return c.func.value.id, conds, c.args[0]
+    return None
+
+
+def for_over_seq(I, st, pipe, env):
+    from .interp import Env, zbool, simp, _and
+    from .seq import SSeq
+    if st.orelse:
+        raise Unsupported('for/else over a symbolic sequence')
+    pat = _append_pattern(st)
+    if pat is not None:
+        lname, conds, elt = pat
+        found, cur = env.lookup(lname)
+        if found and isinstance(cur, list) and len(cur) == 0 and id(cur) not in I.prestate_ids:
+            # L == [] before the loop: after it L is the comprehension [elt for x in S if conds]
+            comp = ast.ListComp(elt=elt, generators=[ast.comprehension(target=st.target, iter=st.iter, ifs=list(conds), is_async=0)])
+            cenv = Env(env.module, env.cls, env.func, env)
+            env.vars[lname] = seq_comprehension(I, comp, pipe, cenv)
+            return
+    return fold_loop(I, st, pipe, env)
+
+
+def fold_loop(I, st, pipe, env):
+    """General accumulate loop: the body is executed once for an arbitrary element with the accumulators havocked
+    (branches are merged with ite, no heap writes); the loop result is the observable FOLD(pipe, init, step), shared by
+    all loops proved to have the same source order, initial values and step function."""
+    from .interp import Env, zbool, simp, _and
+    names = sorted(_assigned_names(st.body))
+    tnames = {n.id for n in ast.walk(st.target) if isinstance(n, ast.Name)}
+    accs = [n for n in names if n not in tnames]
+    init = {}
+    for n in accs:
+        found, v = env.lookup(n)
+        if not found:
+            raise Unsupported(f'loop over a symbolic sequence creates the new local {n}')
+        init[n] = v
+    # accumulator symbols
+    acc_syms = {}
+    for pos, n in enumerate(accs):
+        v = init[n]
+        # accumulators are named by position so that two loops with differently named locals can be unified
+        if isinstance(v, (str, SStr)):
+            acc_syms[n] = SStr([('sym', z3.String(f'acc.{pos}.s'))])
+        elif isinstance(v, bool) or isinstance(v, z3.BoolRef):
+            acc_syms[n] = z3.Bool(f'acc.{pos}.b')
+        elif isinstance(v, int) or isinstance(v, z3.ArithRef):
+            acc_syms[n] = z3.Int(f'acc.{pos}.i')
+        else:
+            raise Unsupported(f'accumulator {n} of type {type(v).__name__} in a loop over a symbolic sequence')
+    pred, keys, val = pipe.eval_at('i')
+    benv = Env(env.module, env.cls, env.func, env)
+    for n in accs:
+        benv.vars[n] = acc_syms[n]
+    I.assign(st.target, val, benv)
+    nw = len(I.writes)
+    I.pointwise += 1
+    I.merge_ifs += 1
+    try:
+        I.exec_block(st.body, benv)
+    finally:
+        I.pointwise -= 1
+        I.merge_ifs -= 1
+    if len(I.writes) != nw:
+        raise Unsupported('heap write inside a loop over a symbolic sequence')
+    step = {n: benv.vars[n] for n in accs}
+    results = I.pipes.fold(pipe, accs, init, acc_syms, step, pred)
+    for n in accs:
+        env.vars[n] = results[n]
